@@ -15,6 +15,8 @@ from pyvc import logic as L
 from pyvc.logic import Node, Str, null, none_s, text, is_msg, born, orig, cp, forall_nodes, forall_ints
 from pyvc.contracts import LoopSpec
 from .common import A, Imp
+from .roles import found_nodes, enum_start, unique_local
+from pyvc.values import SList, SInt, SNode, SNone
 
 
 class InsertCopies(LoopSpec):
@@ -276,7 +278,12 @@ class CollectSources(LoopSpec):
 
     def __init__(self, owner):
         self.o = owner
-        self.havoc_types = {owner.list_var: 'nodelist'}
+        self.havoc_types = {'*list': 'nodelist'}
+
+    def list_name(self, cx, lp):
+        if 'list_var' not in cx.data:
+            cx.data['list_var'] = unique_local(lp, SList)
+        return cx.data['list_var']
 
     def ghost_vars(self, cx):
         return {'lidx': z3.ArraySort(Node, L.I)}    # inverse of the list of resolved sources
@@ -288,7 +295,7 @@ class CollectSources(LoopSpec):
         o = self.o
         H = lp.entry.heap
         P = o.move_parent(cx, lp)
-        Lst = lp.st.locals[o.list_var]
+        Lst = lp.st.locals[self.list_name(cx, lp)]
         k = lp.k
         j, j2 = z3.Ints('j!A j2!A')
         el = lambda i: Lst.elem(i).t
@@ -306,7 +313,7 @@ class CollectSources(LoopSpec):
         return out
 
     def ghost_update(self, cx, lp):
-        Lst = lp.st.locals[self.o.list_var]
+        Lst = lp.st.locals[self.list_name(cx, lp)]
         return {'lidx': z3.Store(lp.st.ghost['lidx'], Lst.elem(lp.k).t, lp.k)}
 
 
@@ -321,7 +328,7 @@ class RemoveAll(LoopSpec):
         o = self.o
         H0, H, k = lp.entry.heap, lp.st.heap, lp.k
         P = o.move_parent(cx, lp)
-        Lst = lp.entry.locals[o.list_var]
+        Lst = lp.seq            # the loop iterates the list of resolved sources itself
         out = [('clock', lp.st.clock == lp.entry.clock)]
         out.append(('removed_exactly_the_first_k_sources',
                     forall_nodes(1, lambda z: H.mem(P, z) == A(H0.mem(P, z), z3.Not(o.in_list(lp.st.ghost, Lst, k, z))),
@@ -346,8 +353,8 @@ class InsertBlock(LoopSpec):
         o = self.o
         Hm, H, k = lp.entry.heap, lp.st.heap, lp.k
         P = o.move_parent(cx, lp)
-        Lst = lp.entry.locals[o.list_var]
-        idx = lp.entry.locals[self.index_var].t
+        Lst = lp.seq.base       # enumerate(<the list of resolved sources>, start=idx)
+        idx = enum_start(lp)
         j = z3.Int('j!C')
         el = lambda i: Lst.elem(i).t
         out = [('clock', lp.st.clock == lp.entry.clock)]
